@@ -82,6 +82,15 @@ def spellings():
                     hs = list(BASE_H)
                     hs.insert(2, line)
                     out.append((req + CRLF + CRLF.join(hs) + CRLF + CRLF).encode() + body)
+    # SWS may contain a line fold: the value on a continuation line (blank or tab), before and after the number
+    for name in ("Content-Length", "l", "CONTENT-LENGTH"):
+        for post in ("\r\n ", "\r\n\t", " \r\n  ", "\r\n \t "):
+            for tail in ("", " ", "\r\n "):
+                line = "%s:%s%d%s" % (name, post, len(body), tail)
+                for pos in (2, len(BASE_H)):
+                    hs = list(BASE_H)
+                    hs.insert(pos, line)
+                    out.append((req + CRLF + CRLF.join(hs) + CRLF + CRLF).encode() + body)
     return out
 
 
